@@ -34,10 +34,12 @@ import (
 func init() {
 	cmds["conc"] = concMain
 	gens["C05"] = func(r *rand.Rand, tier string, emit Emit) {
-		// the line protocol has nothing to compare for C05 (the model has no `serve`); one trivial session keeps
-		// the pipeline uniform. The evidence for C05 comes from the footprint theorems and the race run.
+		// one trivial session (the whole-application race run of `conc` below compares responses, not lines), then the
+		// `concreq` sessions: per-request observations under concurrency against the request machine of Model/ConcReq.
 		emit("NEW noop")
 		emit("nop")
+		// the per-request observations under concurrency, against the request machine (harness/concreq.go)
+		genConcReq(r, tier, emit)
 	}
 	execs["noop"] = func(args []string, lines [][]string) []string {
 		out := []string{"noop"}
